@@ -23,9 +23,21 @@ inductive Val where
   | flt (f : Flt)
   | list (xs : List Bytes)                -- []string
   | hash (h : KMap Scalar)                -- map[string]interface{}
-  | set (ms : List Bytes)                 -- *set.Set (members, unordered, unique)
-  | zset (ms : KMap Flt)                  -- *sorted_set.SortedSet (member → score)
+  | set (oid : Nat) (ms : List Bytes)     -- *set.Set (members, unordered, unique); oid ≠ 0 names a pointer shared by several keys
+  | zset (oid : Nat) (ms : KMap Flt)      -- *sorted_set.SortedSet (member → score); oid as for set
 deriving DecidableEq, Repr, Inhabited
+
+/-- pointer identity of a stored set / sorted set (0 = not shared, or not a pointer type) -/
+def Val.oid : Val → Nat
+  | .set o _ => o
+  | .zset o _ => o
+  | _ => 0
+
+def Val.withOid (v : Val) (o : Nat) : Val :=
+  match v with
+  | .set _ ms => .set o ms
+  | .zset _ ms => .zset o ms
+  | v => v
 
 def Scalar.toVal : Scalar → Val
   | .str s => .str s
@@ -65,8 +77,8 @@ def Entry.getMem (e : Entry) : Int :=
   | .str s => szString + s.length
   | .hash h => szMapHdr + (h.map fun (k, v) => szString + (k.length : Int) + v.mem).sum
   | .list xs => (xs.map fun s => szString + (s.length : Int)).sum
-  | .set ms => szPtr + szMapHdr + (ms.map fun k => szString + (k.length : Int) + szIface).sum
-  | .zset ms => szPtr + (ms.map fun (k, _) => szString + (k.length : Int) + szMemberObject + szString + (k.length : Int)).sum
+  | .set _ ms => szPtr + szMapHdr + (ms.map fun k => szString + (k.length : Int) + szIface).sum
+  | .zset _ ms => szPtr + (ms.map fun (k, _) => szString + (k.length : Int) + szMemberObject + szString + (k.length : Int)).sum
 
 open Gen in
 /-- per-key overhead added by setValues / removed by deleteKey -/
@@ -81,7 +93,7 @@ def Val.fmtV : Val → Option Bytes
   | .flt f => some f.fmtG
   | .list xs => some (b "[" ++ (xs.intersperse (b " ")).flatten ++ b "]")
   | .hash _ => none
-  | .set _ => none
-  | .zset _ => none
+  | .set _ _ => none
+  | .zset _ _ => none
 
 end Sugar
